@@ -1212,8 +1212,27 @@ func verifC15RunCase(env *verifC15Env, cs *verifC15Case, out *verifC15Recs) (leg
 		for _, p := range orig.NE.EdgePoints {
 			ep += fmt.Sprintf("%v[%v] ", p.Type, p.Key)
 		}
+		// tell a node that is still deleted from an empty answer of a foreign store: with deleted
+		// nodes included, our store must list the node with a tombstone edge point
+		tomb := ""
+		if withDel, err := client.GetNodes(nc, p1, "all", "", true); err == nil {
+			for _, n := range withDel {
+				if n.ID != cs.Top.ID {
+					continue
+				}
+				for _, p := range n.EdgePoints {
+					if p.Type == data.PointTypeTombstone {
+						tomb = fmt.Sprintf("tombstone edge point value %v", p.Value)
+					}
+				}
+			}
+		}
+		if tomb == "" {
+			fail("harness: read anomaly", "leg (b): no node below the original parent, and the node is not listed as deleted either")
+			break
+		}
 		fail("restore with preserved ids after delete: top node stays deleted",
-			fmt.Sprintf("leg (b): no node below the original parent after ImportNodes(preserveIDs=true) returned nil; edge points of the original top node: %v", ep))
+			fmt.Sprintf("leg (b): no node below the original parent after ImportNodes(preserveIDs=true) returned nil (%v); edge points of the original top node: %v", tomb, ep))
 	case len(got) != 1:
 		fail("imported top node count wrong", fmt.Sprintf("leg (b): %v nodes below the import parent, want 1", len(got)))
 	default:
